@@ -5,7 +5,7 @@ from vlib.common import hexs
 from vlib.decsuite import D, Sop, parse_tok, cls_kind
 
 THEOREMS = ["C15_following_bits_irrelevant", "C15_padding_is_skipped", "C15_two_pictures_one_reader", "C15_header_frame", "C15_macroblock_count_bound", "C15_start_code_window"]
-BRIDGES = ["BridgePLoop", "BridgePNextLoop", "BridgePNext"]
+BRIDGES = ["BridgePLoop", "BridgePNextLoop", "BridgePNext", "BridgePReach"]
 
 
 def gen_cases(ctx, n):
